@@ -102,6 +102,12 @@ func c06Script(c c06Case, depth int) string {
 		body = "return cbcall(func() { try { fail() } catch e { return \"caught\" }; return \"nothing-thrown\" })"
 	case "try-in-callback-unpooled":
 		body = "return cbcall2(func() { try { fail() } catch e { return \"caught\" }; return \"nothing-thrown\" })"
+	case "catch-then-catch":
+		body = "try { fail() } catch e1 { }\ntry { fail() } catch e2 { return \"caught\" }\nreturn \"nothing-thrown\""
+	case "catch-then-plain":
+		body = "try { fail() } catch e1 { }\nreturn fail()"
+	case "loop-catch":
+		body = "n := 0\nfor i := 0; i < 3; i++ { try { fail() } catch e { n++ } }\nif n == 3 { return \"caught\" }\nreturn \"nothing-thrown\""
 	case "host-invoke", "host-invoke-unpooled":
 		// the host calls the returned function itself after Run
 		body = "return fail"
